@@ -25,6 +25,11 @@ pub struct Rw {
     /// names of lock-guard bindings whose live range is monitored (R27)
     pub guards: HashSet<String>,
     pub live_guards: Vec<String>,
+    /// R18: captured locals of `retain` closures: (name, type text), from the contract's `retain_captures`
+    pub retain_captures: Vec<(String, String)>,
+    /// R18: lifted closure bodies: (fn name, key pattern, value pattern, body)
+    pub lifted: Vec<(String, Pat, Pat, Block)>,
+    pub fn_name: String,
 }
 
 const LOG_MACROS: &[&str] = &["error", "warn", "info", "debug", "trace"];
@@ -127,6 +132,9 @@ impl Rw {
             noop_methods: HashSet::new(),
             guards: HashSet::new(),
             live_guards: Vec::new(),
+            retain_captures: Vec::new(),
+            lifted: Vec::new(),
+            fn_name: String::new(),
         }
     }
 
@@ -294,6 +302,56 @@ impl VisitMut for Rw {
                     keep.push(parse_quote!(let mut __i: usize = 0;));
                     keep.push(Stmt::Expr(parse_quote!(while __i < #recv.len() { let #pat = &#recv[__i]; #body; __i += 1; }), None));
                     self.log.push("R7 iter().for_each -> index loop".into());
+                }
+                Stmt::Expr(Expr::MethodCall(m), Some(_)) if m.method == "retain" && m.args.len() == 1 && matches!(&m.args[0], Expr::Closure(c) if c.inputs.len() == 2) => {
+                    // R18: `map.retain(|k, v| BODY)`: closure conversion + retain's definition as a loop over a snapshot of
+                    // the keys (each key present once, in an arbitrary order: the proof must hold for every order)
+                    let c = if let Expr::Closure(c) = &m.args[0] { c.clone() } else { unreachable!() };
+                    let recv = (*m.receiver).clone();
+                    let n = self.lifted.len() + 1;
+                    let fname = format!("{}__retain_body_{}", self.fn_name, n);
+                    let fid = Ident::new(&fname, Span::call_site());
+                    let body: Block = match &*c.body {
+                        Expr::Block(b) => b.block.clone(),
+                        e => parse_quote!({ #e }),
+                    };
+                    let mut body = body;
+                    // captured non-reference locals are reached through `*name` in the lifted function
+                    let derefs: Vec<String> = self.retain_captures.iter().filter(|(_, t)| t.trim_start().starts_with("&mut") && !t.contains("Context")).map(|(n, _)| n.clone()).collect();
+                    struct D<'a>(&'a [String]);
+                    impl<'a> VisitMut for D<'a> {
+                        fn visit_expr_mut(&mut self, e: &mut Expr) {
+                            visit_mut::visit_expr_mut(self, e);
+                            if let Expr::Path(p) = e {
+                                if let Some(i) = p.path.get_ident() {
+                                    if self.0.contains(&i.to_string()) {
+                                        let id = i.clone();
+                                        *e = parse_quote!((*#id));
+                                    }
+                                }
+                            }
+                        }
+                    }
+                    self.visit_block_mut(&mut body);
+                    D(&derefs).visit_block_mut(&mut body);
+                    self.lifted.push((fname.clone(), c.inputs[0].clone(), c.inputs[1].clone(), body));
+                    let caps: Vec<Expr> = self.retain_captures.iter().map(|(n, t)| {
+                        let id = Ident::new(n, Span::call_site());
+                        if t.trim_start().starts_with("&mut") && !t.contains("Context") { parse_quote!(&mut #id) } else { parse_quote!(#id) }
+                    }).collect();
+                    keep.push(parse_quote!(let __keys = #recv.keys_snapshot();));
+                    keep.push(parse_quote!(let mut __i: usize = 0;));
+                    keep.push(Stmt::Expr(parse_quote!(while __i < __keys.len() {
+                        let __keep = {
+                            let __v = #recv.get_mut(&__keys[__i]).unwrap();
+                            Self::#fid(&__keys[__i], __v, #(#caps),*)
+                        };
+                        if !__keep {
+                            #recv.remove(&__keys[__i]);
+                        }
+                        __i += 1;
+                    }), None));
+                    self.log.push("R18 HashMap::retain closure converted and desugared to a loop over a key snapshot".into());
                 }
                 Stmt::Expr(Expr::MethodCall(m), _) if m.method == "for_each" && m.args.len() == 1 && is_iter_mut_call(&m.receiver) => {
                     // R7b: `x.iter_mut().for_each(|p| s.m())` where every impl of `m` in the repo has an empty body is a no-op
@@ -623,6 +681,20 @@ impl VisitMut for Rw {
                     let mut p = tp.path.clone();
                     self.map_path(&mut p);
                     tp.path = p;
+                } else if repl.is_none() {
+                    // `<T as Trait>::Assoc`: re-root the trait part
+                    let pos = tp.qself.as_ref().unwrap().position;
+                    let mut tr: Path = Path { leading_colon: None, segments: tp.path.segments.iter().take(pos).cloned().collect() };
+                    let before = tr.segments.len();
+                    self.map_path(&mut tr);
+                    if tr.segments.len() == before {
+                        let rest: Vec<PathSegment> = tp.path.segments.iter().skip(pos).cloned().collect();
+                        let mut segs: Punctuated<PathSegment, Token![::]> = tr.segments;
+                        for r in rest {
+                            segs.push(r);
+                        }
+                        tp.path.segments = segs;
+                    }
                 }
             }
             _ => {}
